@@ -1,6 +1,61 @@
-NOTES = "All checks: ./check <ID> [--tier quick|thorough] [--replay file]; exit 0 held / 1 VIOLATION / 2 machinery problem. Known findings live in KNOWN_FINDINGS.txt."
+NOTES = ("All checks: ./check <ID> [--tier quick|thorough] [--replay file]; exit 0 held / 1 VIOLATION / 2 machinery problem "
+         "(never a verdict). Every check rebuilds the harness against /repo's working tree (PRECIS_REPO overrides the subject path), "
+         "explores a stated bounded space completely, and writes evidence/<ID>.json. Known findings: KNOWN_FINDINGS.txt.")
 NOT_APPLICABLE = {}
+TB_UCD = "Trusted: pinned UCD copies under /verif/data (sha256 in data/SHA256SUMS)"
+TB_NORM = "unicode-normalization and std's char::to_lowercase as mapping data (the subject uses the same data; what is checked is how it applies them)"
+
+add("C01", "exhaustive enumeration of bounded string tree + full code-point sweep under catch_unwind with watchdog",
+    "Every scalar value in 12 templates x 54 public operations, every u32 (quick: 0..=0x1FFFFF + lattice; thorough: all 2^32) through the code-point entry points, and every string of length <= 3/4 over a 42-symbol alphabet holding one member of every behaviour class and UTF-8 length through all operations and all context rules at all positions (incl. usize::MAX). Built with overflow checks and debug assertions; no unwind and no case over 10 s is the oracle.",
+    "Bounded: strings longer than the tree bound are reached only through the sweep templates; allocation failure not explored.", "DESIGN.md 4/C01")
+add("C02", "exhaustive enumeration of labels and of all derived-property assignments, lock-step with a first-offender reference model",
+    "All labels of length <= 5/6 over a 25-symbol alphabet (every derived-property value x every context-rule family x enabling neighbours x UTF-8 lengths) for both standard classes, every scalar value in 7 templates, and for user-supplied classes ALL 7^k assignments of derived-property values to k=4/5 symbols x all labels of length <= 4/5; result compared with a reference that walks code points and applies RFC 5892 rules, including error payload (cp, code-point index, property).",
+    "Classification of single code points is taken from the class itself (C14 decides it). " + TB_UCD, "DESIGN.md 4/C02")
+add("C03", "full code-point sweep per inspected role + exhaustive label/position enumeration against declarative RFC 5892 conditions",
+    "Every scalar value in 24 role templates and on [X],0 for all 8 rule functions; all labels of length <= 7/9 over {D,L,R,T,non-joining,virama,ZWNJ,ZWJ} and <= 5/6 over 14 script/digit/punctuation symbols with every rule at every position (inside, outside, usize::MAX); registry checked on every u32 (thorough: all 2^32). Oracle: RFC 5892 Appendix A conditions evaluated over the pinned 6.3.0 Scripts/DerivedJoiningType/UnicodeData by an independent reader, Undefined tolerated only where a named neighbour lies outside the label.",
+    TB_UCD, "DESIGN.md 4/C03")
+add("C04", "exhaustive enumeration of bounded string tree + code-point sweep, lock-step with a composed reference pipeline",
+    "All strings of length <= 5/6 over a 27-symbol alphabet chosen so every pair of steps interacts (width x validation, width x NFC, case x NFC, order of validation and case mapping, contextual, RTL) x 2 profiles x {prepare, enforce}, plus every scalar value in 7 templates; results (strings and error payloads) must equal width -> non-empty -> IdentifierClass -> [lowercase] -> NFC -> non-empty -> directionality.",
+    "Directionality step is the implementation's own rule used as a black box (C09 decides it). " + TB_NORM + ". " + TB_UCD, "DESIGN.md 4/C04")
+add("C05", "exhaustive enumeration of bounded string tree + code-point sweep, lock-step with a reference pipeline",
+    "All strings of length <= 5/6 over 20 symbols (ASCII space, Zs of 2/3 bytes, NFC-changing sequences, compatibility characters that must survive, 1-4 byte letters, invalid code points) x {prepare, enforce} and every scalar value in 9 templates; whole results compared with non-empty -> FreeformClass -> non-ASCII Zs to U+0020 -> NFC -> non-empty, so any other alteration is visible.",
+    TB_NORM + ". " + TB_UCD, "DESIGN.md 4/C05")
+add("C06", "exhaustive enumeration of bounded string tree + code-point sweep, lock-step with an iterated reference model; fixed-point re-check of every accepted state",
+    "All strings of length <= 4/5 over 20 symbols (incl. characters whose NFKC form introduces spaces or needs re-validation) and <= 6/8 over 8 space/length symbols, every scalar value in 7 templates; enforce compared with the RFC 8264 s.7 iteration of the RFC 8266 rules; every accepted result is re-enforced and re-run through one reference application.",
+    TB_NORM + ". " + TB_UCD, "DESIGN.md 4/C06")
+add("C07", "exhaustive enumeration of all ordered pairs (and all triples of a window) over a bounded string set",
+    "All ordered pairs of all strings of length <= 2/3 over 23 symbols (plus one length deeper over the interaction symbols) x 4 profiles: compare must equal the first operand's error / second operand's error / equality of canonical forms (implementation's own enforce for usernames and OpaqueString, reference comparison pipeline for Nickname); reflexivity, symmetry and transitivity checked on all pairs/triples of the first 150/400 strings.",
+    "For usernames/OpaqueString the canonical form is what enforce returns (C04/C05 decide whether that is right).", "DESIGN.md 4/C07")
+add("C08", "full code-point sweep in 12 contexts + enumeration of every canonical decomposition and its reorderings + bounded string tree; invariant evaluated on every accepted output",
+    "Every scalar value between 3 prefixes and 4 suffixes x 4 profiles, every canonically decomposable character's decompositions/mark permutations/prefixes/upper-cased variants, all strings of length <= 4/5 over 24 cased/width/compatibility symbols: each accepted result is re-classified code point by code point with the profile's class and the reference derived property, and re-enforced (must return itself or an error).",
+    TB_UCD + "; known finding cherokee_lowercase_unassigned.", "DESIGN.md 4/C08")
+add("C09", "exhaustive enumeration of all bidi-class sequences up to a length bound + full sweep of assigned code points through the class table",
+    "All sequences of length <= 6/7 over the 23 bidirectional classes (3.56e9 at 7) through directionality_rule, compared with the six RFC 5893 conditions written as set predicates; every code point assigned in the profile crate's UnicodeData in 5 contexts that separate every class partition the rule can observe.",
+    "The scan's state is reached by <= 4 symbols so the bound covers every transition of every reachable state; a change adding a counter beyond the bound is outside it. " + TB_UCD + "; known finding bidi_interior_nsm.", "DESIGN.md 4/C09")
+add("C10", "exhaustive enumeration of bounded string tree + full code-point sweep in 10 position templates",
+    "All strings of length <= 5/6 over 16 symbols (upper, lower, titlecase, Other_Uppercase, multi-character mapping, 1-4 bytes, uncased) and every scalar value in 10 templates through case_mapping_rule of both profiles that have it; result must be the concatenation of each character's full lowercase mapping; idempotence checked on every output.",
+    TB_NORM, "DESIGN.md 4/C10")
+add("C11", "exhaustive enumeration of bounded string tree + full code-point sweep against the decomposition tags of UnicodeData",
+    "All strings of length <= 5/7 over 13 symbols and every scalar value in 7 templates through width_mapping_rule of both username profiles; per-character oracle from the <wide>/<narrow> tags read by an independent reader; idempotence on every output.",
+    TB_UCD, "DESIGN.md 4/C11")
+add("C12", "exhaustive enumeration of all space/non-space patterns up to a length bound + full code-point sweep",
+    "All strings of length <= 7/9 over {U+0020, Zs of 2 and 3 bytes, letters of 1-4 bytes} (134M at 9) and every scalar value in 7 templates through the Nickname and OpaqueString additional mapping rules; oracle = split/join specification; idempotence on every output.",
+    TB_UCD, "DESIGN.md 4/C12")
+add("C13", "explicit-state search: all functions on a k-element universe x all starts",
+    "Every function f from a universe of 4/6 strings to that universe + {Err(Invalid), Err(BadCodepoint)} (6^4 / 8^6 functions) x every start x Cow styles x argument forms, plus a diverging rule; result and call log compared with the RFC 8264 s.7 chain semantics (first application + three re-applications).",
+    "stabilize observes f only through its return values, so a universe of k strings contains every chain shape up to length k.", "DESIGN.md 4/C13")
 add("C14", "exhaustive enumeration of the 32-bit input space against an independent reference model and the IANA registry",
-    "Every value 0..=0x1FFFFF (quick) or all 2^32 values (thorough) is classified by both string classes through both entry points and compared with the RFC 8264 s.8 decision list recomputed from the pinned raw 6.3.0 UCD files by an independent reader and with the IANA registry row; class relation and entry-point agreement are checked on every value. The thorough tier is a complete enumeration of the input space.",
-    "Trusted: pinned UCD 6.3.0 copies and IANA csv under /verif/data; unicode-normalization for NFKC (cross-checked against CPython's unicodedata for all code points assigned in 6.3.0).",
-    "DESIGN.md 4/C14")
+    "Every value 0..=0x1FFFFF + lattice (quick) or all 2^32 values (thorough) classified by both classes through both entry points and compared with the RFC 8264 s.8 decision list recomputed from the pinned raw 6.3.0 UCD files and with the IANA registry row; class relation and entry-point agreement on every value.",
+    TB_UCD + "; NFKC from unicode-normalization, cross-checked against CPython's unicodedata for all code points assigned in 6.3.0.", "DESIGN.md 4/C14")
+add("C15", "explicit-state enumeration of all well-formed input configurations of a code-point window through the real generators + full check of the tables the build just emitted",
+    "Every tiling of a 6/8-slot window into {gap, single, First/Last range} x 2/3 attribute bundles at 3 window positions through the public generator API, every {none,P,Q} assignment x line segmentation x value order through the property-file generators, and all 47 tables emitted by the real build scripts x every code point: denotation equals the input, entries strictly increasing and disjoint, binary search with the library's own comparison finds exactly the members.",
+    "Windows end at U+10FFFD (well-formed UnicodeData never lists the noncharacters U+10FFFE/F).", "DESIGN.md 4/C15")
+add("C16", "exhaustive enumeration of API forms and of call histories up to a depth against first-call-in-fresh-process results; exhaustive interleavings of threads over the lazy-singleton points under a controlled scheduler",
+    "All strings of length <= 3/4 over 16 symbols x every (entry point, argument form) pair; every call history of length <= 2/3 over 72 calls on the process-wide statics and long-lived instances, each result compared with that call made first in a fresh process (72 child processes); every schedule of 2-3 threads over the lazy-singleton initialisation/deref points (schedule explorer with a patched lazy_static); inventory of shared-state constructs.",
+    "std::sync::Once is modelled, not checked; unsynchronised shared memory without a lazy deref in the racy window is visible only to the history search.", "DESIGN.md 4/C16, 7")
+add("C17", "grammar enumeration: every code point, every range over a boundary set x every property field x every description, all short files",
+    "Every code point as a row in 4/5/6-digit hex, every range over 26 boundary values x 154 property fields x 8 descriptions, 38 hand-listed + systematic field deletions/corruptions, every file of <= 3/4 rows over a 15-row pool x LF/CRLF x final newline through CsvLineParser (order, line numbers), and the real IANA file row by row; expected values known by construction.",
+    "Reversed ranges, '+'-prefixed and lower-case hex are outside the statement and not judged.", "DESIGN.md 4/C17")
+add("C18", "complete enumeration of a window of entries x code points x operators, and of all sorted tables over a window",
+    "Every Single/Range entry over a value window containing 0, u32::MAX and the Unicode boundary x every code point in the window x 12 operator forms against trichotomy by definition; every strictly increasing disjoint table over a 10/13-slot window at three bases x every probe through the library's binary_search_by(partial_cmp().unwrap()).",
+    "Comparisons are pure functions of (start, end, cp); the window contains every relative position and both extremes.", "DESIGN.md 4/C18")
